@@ -85,11 +85,19 @@ def tap(ctx, tid):
     return _tap
 
 
+class HList(list):
+    """a mutable accumulator that is HASHABLE (by identity), as instances of ordinary classes are: a value seed of this
+    kind must be copied per key like any other value seed (hashable does not mean immutable)"""
+    __hash__ = object.__hash__
+
+
 def seed_of(node):
-    """scan seed: value (deep-copied per key by rxsci) or factory"""
+    """scan seed: value (deep-copied per key by rxsci), factory, or ('hvalue') a value that is a hashable mutable object"""
     v = dec(node[2])
     if len(node) > 5 and node[5] == 'factory':
         return lambda: dec(node[2])
+    if len(node) > 5 and node[5] == 'hvalue' and isinstance(v, list):
+        return HList(v)
     return v
 
 
